@@ -16,28 +16,28 @@ Section GenEqDelaunay.
   Lemma Less_eq : forall (a : list (Z * Z * Z)) (i j : Z),
       rg_render_TriangleIByIndex_Less a i j = Canon.less (znth i a (0, 0, 0)%Z) (znth j a (0, 0, 0)%Z).
   Proof.
-    intros. unfold rg_render_TriangleIByIndex_Less.
+    intros. unfold rg_render_TriangleIByIndex_Less. autounfold with rg_helpers. cbv zeta.
     generalize (znth i a (0, 0, 0)%Z) (znth j a (0, 0, 0)%Z). intros [[a0 a1] a2] [[b0 b1] b2].
-    unfold Canon.less. cbn [fst snd]. by_cases TRANSL_render_Less.
+    unfold Canon.less. cbn [fst snd]. z_cases TRANSL_render_Less.
   Qed.
   Lemma Canonical_eq : forall t : Canon.tri, rg_render_TriangleI_Canonical t = Canon.canon t.
   Proof.
-    intros [[a b] c]. unfold rg_render_TriangleI_Canonical, Canon.canon. cbn [fst snd].
-    by_cases TRANSL_render_Canonical.
+    intros [[a b] c]. unfold rg_render_TriangleI_Canonical, Canon.canon. autounfold with rg_helpers.
+    cbv zeta. cbn [fst snd]. z_cases TRANSL_render_Canonical.
   Qed.
 
   Lemma Circumcenter_eq : forall p1 p2 p3 : V2,
       rg_sdf_Triangle2_Circumcenter (p1, p2, p3) = circumcenter p1 p2 p3.
   Proof.
     intros. unfold rg_sdf_Triangle2_Circumcenter, circumcenter.
-    change rg_sdf_epsilon with (@Delaunay.eps O). cbn [fst snd].
+    unfold Delaunay.eps. cbn [fst snd].
     by_cases TRANSL_render_Circumcenter.
   Qed.
   Lemma InCircumcircle_eq : forall p1 p2 p3 p : V2,
       rg_sdf_Triangle2_InCircumcircle (p1, p2, p3) p = in_circumcircle p1 p2 p3 p.
   Proof.
     intros. unfold rg_sdf_Triangle2_InCircumcircle, in_circumcircle. rewrite Circumcenter_eq.
-    change rg_sdf_epsilon with (@Delaunay.eps O). cbn [fst snd].
+    unfold Delaunay.eps. cbn [fst snd].
     destruct (circumcenter p1 p2 p3); by_cases TRANSL_render_InCircumcircle.
   Qed.
 
@@ -50,11 +50,11 @@ Section GenEqDelaunay.
   Lemma superTriangle_eq : forall vs : list V2, (2 <= length vs)%nat ->
       rg_render_superTriangle vs = Some (super_triangle vs).
   Proof.
-    intros vs H. unfold rg_render_superTriangle, super_triangle. cbv zeta.
+    intros vs H. unfold rg_render_superTriangle, super_triangle. autounfold with rg_helpers. cbv zeta.
     destruct vs as [|a [|b r]]; cbn [length] in H; try lia.
-    replace (Z.eqb (zlen (a :: b :: r)) 0) with false by (symmetry; apply Z.eqb_neq; unfold zlen; cbn [length]; lia).
-    replace (Z.eqb (zlen (a :: b :: r)) 1) with false by (symmetry; apply Z.eqb_neq; unfold zlen; cbn [length]; lia).
-    rewrite VecSet_Min_eq, VecSet_Max_eq.
-    same_as TRANSL_render_superTriangle.
+    (* len(vs) is at least 2: whatever tests the code makes on it (if chain, switch) are decided *)
+    unfold zlen. cbn [length]. z_split.
+    all: rewrite ?VecSet_Min_eq, ?VecSet_Max_eq.
+    all: same_as TRANSL_render_superTriangle.
   Qed.
 End GenEqDelaunay.
